@@ -32,6 +32,8 @@ THEOREMS = [
     "repaired_seen_by_id", "repaired_proto_names", "repaired_defined_pointer",
     "assert_counterexample_methodset", "assertType_step", "assert_correct", "assert_concrete", "repaired_memo_by_id",
     "comparableM_eq", "iface_eq", "iface_eq_counterexample_uninitialised", "repaired_comparable_on_demand",
+    "methodvalue_full", "methodvalue_binds_copy", "clone_iff", "clone_from_operand_type_is_wrong",
+    "repaired_methodvalue_through_pointer", "forwarder_receiver_has_method", "repaired_forwarder_counterexample",
 ]
 
 
@@ -1314,6 +1316,256 @@ def run_mp_programs(chk, tier):
     chk.extra["multipkg_programs_run"] = nprog
 
 
+# ----------------------------------------------------------------------------------------------
+# method values / method expressions / defer / go over embedding paths (tie b3) + makeReceiver structure tie
+# ----------------------------------------------------------------------------------------------
+
+
+_LEAF = {
+    "s": {"decl": "type %(L)s struct{ x int }", "get": "l.x", "lit": "%(L)s{%(n)d}"},
+    "a": {"decl": "type %(L)s [2]int", "get": "l[0]", "lit": "%(L)s{%(n)d, 0}"},
+    "b": {"decl": "type %(L)s int", "get": "int(l)", "lit": "%(L)s(%(n)d)"},
+}
+
+
+def gen_ptrcache_program(rng):
+    """A struct with two embedded non-struct fields whose types both have pointer-receiver methods: the promoted calls must
+    reach their own field, and the receiver must be the pointer `&w.Field` (recorded finding: one cache key `$ptr_o`)."""
+    kinds = [rng.choice(["int", "[2]int", "[]int"]) for _ in range(2)]
+    src = ["package main", ""]
+    for j, kd in enumerate(kinds):
+        T = "F%d" % j
+        src.append("type %s %s" % (T, kd))
+        bump = {"int": "*r += %d" % (j + 1), "[2]int": "r[0] += %d" % (j + 1), "[]int": "*r = append(*r, %d)" % j}[kd]
+        val = {"int": "int(*r)", "[2]int": "r[0]", "[]int": "len(*r)"}[kd]
+        src.append("func (r *%s) Inc%d() { %s }" % (T, j, bump))
+        src.append("func (r *%s) Val%d() int { return %s }" % (T, j, val))
+        src.append("func (r *%s) Self%d() *%s { return r }" % (T, j, T))
+    src.append("type W struct { F0; F1; pad int }")
+    src.append("func main() {")
+    src.append("\tw := &W{}")
+    calls = ["w.Inc0()", "w.Inc1()", "w.Inc1()", "w.Inc0()", "w.Inc1()"]
+    rng.shuffle(calls)
+    for k, c in enumerate(calls):
+        src.append("\t%s" % c)
+        src.append("\tprintln(\"s%d:ptrcache vals\", w.Val0(), w.Val1())" % (k + 1))
+    src.append("\tprintln(\"s9:ptrcache self\", w.Self0() == &w.F0, w.Self1() == &w.F1, w.Self0() == w.Self0())")
+    src.append("}")
+    return "\n".join(src) + "\n", []
+
+
+def gen_mv_program(rng, idx, fwdptr=False):
+    """Method values, method expressions, `defer x.M()`, `go x.M()` and interface method values over embedding chains of
+    depth 0-3 that mix value and pointer embedding, with value and pointer receivers on struct / array / int receivers and a
+    mutation of the receiver object between binding and calling. Returns (source, structure sites); every printed line is
+    `s<k>:<class> …` with class `ok` (must equal native Go) or `ptrbasic` (recorded finding). With `fwdptr` the program instead consists of
+    method expressions / interface calls that go through the synthesized forwarding method of a POINTER-receiver method of an
+    array/int type embedded BY VALUE (recorded finding: the forwarder wraps the field value instead of taking its address and
+    crashes); such sites are left out otherwise."""
+    src = ["package main", ""]
+    leaves = {}
+    for k in "sab":
+        L = "Leaf" + k.upper()
+        leaves[k] = L
+        src.append(_LEAF[k]["decl"] % {"L": L})
+        g = _LEAF[k]["get"]
+        src.append("func (l %s) Get() int { return %s }" % (L, g))
+        src.append("func (l %s) Show(tag string) { println(tag, %s) }" % (L, g))
+        src.append("func (l %s) Send(c chan int) { c <- %s }" % (L, g))
+        src.append("func (l *%s) PGet() int { return %s }" % (L, g.replace("l.x", "l.x").replace("l[0]", "l[0]").replace("int(l)", "int(*l)")))
+    src.append("type Getter interface{ Get() int }")
+    chains = []
+    nchains = rng.choice([4, 5, 6])
+    for c in range(nchains):
+        k = rng.choice("ssaab") if c >= 3 else "sab"[c]
+        depth = rng.choice([0, 1, 1, 2, 2, 3])
+        steps = [rng.choice("vp") for _ in range(depth)]        # step j: how wrapper j embeds the next type
+        if fwdptr:
+            k = rng.choice("ab")
+            depth = rng.choice([1, 2, 3])
+            steps = [rng.choice("vp") for _ in range(depth - 1)] + ["v"]
+        names = ["C%dW%d" % (c, j) for j in range(depth)] + [leaves[k]]
+        for j in range(depth):
+            src.append("type %s struct{ %s%s; pad%d int }" % (names[j], "*" if steps[j] == "p" else "", names[j + 1], j))
+        def lit(j, n, names=names, steps=steps, depth=depth, k=k):
+            if j == depth:
+                return _LEAF[k]["lit"] % {"L": names[j], "n": n}
+            inner = lit(j + 1, n, names, steps, depth, k)
+            if steps[j] == "p":
+                if j + 1 == depth and k == "b":
+                    inner = "func() *%s { t := %s; return &t }()" % (names[j + 1], inner)
+                else:
+                    inner = "&" + inner
+            return "%s{%s: %s}" % (names[j], names[j + 1], inner)
+        chains.append({"k": k, "depth": depth, "steps": steps, "names": names, "lit": lit, "outer": names[0]})
+    sites, main, struct_sites = [], [], []
+
+    def mutate(ch, opnd, n):
+        """statement that changes the leaf's value to n through operand `opnd` (a variable name; `isptr` says whether it is a pointer)"""
+        k, depth, steps, L = ch["k"], ch["depth"], ch["steps"], ch["names"][-1]
+        name, isptr = opnd
+        if depth == 0:
+            if k == "s":
+                return "%s.x = %d" % (name, n)
+            if k == "a":
+                return "%s[0] = %d" % (name, n)
+            return ("*%s = %d" if isptr else "%s = %d") % (name, n)
+        if k == "s":
+            return "%s.x = %d" % (name, n)
+        if k == "a":
+            return "%s.%s[0] = %d" % (name, L, n)
+        return ("*%s.%s = %d" if steps[-1] == "p" else "%s.%s = %d") % (name, L, n)
+
+    def last_is_ptr(ch, isptr):
+        return (ch["steps"][-1] == "p") if ch["depth"] else isptr
+
+    sid = [0]
+    def site(body_lines):
+        sid[0] += 1
+        name = "site%d" % sid[0]
+        src.append("func %s() {" % name)
+        src.extend("\t" + l for l in body_lines)
+        src.append("}")
+        main.append("\t%s()" % name)
+        return sid[0]
+
+    if fwdptr:
+        src.append("type PGetter interface{ PGet() int }")
+        for ci, ch in enumerate(chains):
+            T = ch["outer"]
+            pre = ["v := %s" % ch["lit"](0, 1), "p := &v"]
+            if rng.random() < 0.5:
+                site(pre + ["f := (*%s).PGet" % T, "println(\"s%d:fwdptr mexpr*\", f(p))" % (sid[0] + 1)])
+            else:
+                site(pre + ["var i PGetter = p", "println(\"s%d:fwdptr iface\", i.PGet())" % (sid[0] + 1)])
+        src.append("func main() {")
+        src.extend(main)
+        src.append("}")
+        return "\n".join(src) + "\n", []
+    for ci, ch in enumerate(chains):
+        T, k = ch["outer"], ch["k"]
+        has_ptr_step = "p" in ch["steps"]
+        fwd_crash = k in "ab" and ch["depth"] >= 1 and ch["steps"][-1] == "v"
+        for isptr in (False, True):
+            for meth, pe in (("Get", False), ("PGet", True)):
+                lip = last_is_ptr(ch, isptr)
+                cls = "ptrbasic" if (not pe and k == "b" and lip) else "ok"
+                opn = ("p", True) if isptr else ("v", False)
+                pre = ["v := %s" % ch["lit"](0, 1)] + (["p := &v"] if isptr else [])
+                tag = lambda form: "s%d:%s %s" % (sid[0] + 1, cls, form)
+                # structure site: the emitted receiver of the method value
+                bname = "bind%d_%d_%d" % (ci, 1 if isptr else 0, 1 if pe else 0)
+                src.append("func %s(o %s%s) func() int { return o.%s }" % (bname, "*" if isptr else "", T, meth))
+                struct_sites.append({"fn": bname, "method": meth, "isPointer": lip, "pe": pe, "kind": k})
+                main.append("\t_ = %s" % bname)
+                # 1. method value, mutation between binding and calling
+                if rng.random() < 0.8:
+                    site(pre + ["f := %s.%s" % (opn[0], meth), mutate(ch, opn, 2), "println(\"%s\", f(), f())" % tag("mval")])
+                # 2. method value bound twice at different times
+                if rng.random() < 0.3:
+                    site(pre + ["f := %s.%s" % (opn[0], meth), mutate(ch, opn, 2), "g := %s.%s" % (opn[0], meth), mutate(ch, opn, 3),
+                                "println(\"%s\", f(), g())" % tag("mval2")])
+                # 3. method expressions (receiver evaluated at the call)
+                if rng.random() < 0.5:
+                    if isptr and pe and fwd_crash:
+                        pass          # goes through the broken forwarder: dedicated `fwdptr` programs
+                    elif isptr:
+                        site(pre + ["f := (*%s).%s" % (T, meth), mutate(ch, opn, 2), "println(\"%s\", f(p))" % tag("mexpr*")])
+                    elif not pe:
+                        site(pre + ["f := %s.%s" % (T, meth), "w := v", mutate(ch, opn, 2), "println(\"%s\", f(w), f(v))" % tag("mexpr")])
+                # 4. plain call after mutation (control)
+                if rng.random() < 0.3:
+                    site(pre + [mutate(ch, opn, 2), "println(\"%s\", %s.%s())" % (tag("call"), opn[0], meth)])
+            # value-receiver only forms
+            lip = last_is_ptr(ch, isptr)
+            cls = "ptrbasic" if (k == "b" and lip) else "ok"
+            opn = ("p", True) if isptr else ("v", False)
+            pre = ["v := %s" % ch["lit"](0, 1)] + (["p := &v"] if isptr else [])
+            if rng.random() < 0.6:
+                n0 = sid[0] + 1
+                site(pre + ["defer %s.Show(\"s%d:%s defer\")" % (opn[0], n0, cls), mutate(ch, opn, 2)])
+            if rng.random() < 0.5:
+                n0 = sid[0] + 1
+                site(pre + ["c := make(chan int, 1)", "go %s.Send(c)" % opn[0], mutate(ch, opn, 2), "println(\"s%d:%s go\", <-c)" % (n0, cls)])
+            if rng.random() < 0.4:
+                n0 = sid[0] + 1
+                site(pre + ["var i Getter = %s" % opn[0], "f := i.Get", mutate(ch, opn, 2), "println(\"s%d:ok iface\", f())" % n0])
+        # binding through a nil pointer operand panics when the method value is evaluated
+        if rng.random() < 0.6:
+            n0 = sid[0] + 1
+            cls = "ptrbasic" if (k == "b" and ch["depth"] == 0) else "ok"
+            src.append("func nilbind%d() (p bool) { defer func() { p = recover() != nil }(); var q *%s; f := q.Get; _ = f; return false }" % (n0, T))
+            sid[0] += 1
+            main.append("\tprintln(\"s%d:%s nilbind\", nilbind%d())" % (n0, cls, n0))
+    src.append("func main() {")
+    src.extend(main)
+    src.append("}")
+    return "\n".join(src) + "\n", struct_sites
+
+
+def run_mv_programs(chk, tier):
+    from . import progs
+    q = tier != "thorough"
+    n = 10 if q else 120
+    nfwd = 2 if q else 12
+    ncache = 2 if q else 10
+    jobs, metas = [], []
+    for i in range(n + nfwd + ncache):
+        if i >= n + nfwd:
+            srcs, ss = gen_ptrcache_program(chk.rng)
+        else:
+            srcs, ss = gen_mv_program(chk.rng, i, fwdptr=(i >= n))
+        jobs.append({"id": "mv%d" % i, "files": {"main.go": srcs}, "variants": ["plain"] if (q or i % 4) else ["plain", "minify"],
+                     "native": True, "timeout": 120, "keep_js": True})
+        metas.append((srcs, ss))
+    res = progs.run_jobs(jobs, par=8)
+    sops, simpl, sinfo = [], [], []
+    for job, r, (srcs, ss) in zip(jobs, res, metas):
+        nat = progs.observe_native(r["runs"]["native"])
+        if nat[1] != "exit0":
+            raise RuntimeError("generated method-value program does not build/run natively: %s\n%s" % (nat[1], srcs[:3000]))
+        for v in job["variants"]:
+            js = progs.observe_js(r["runs"][v])
+            same = js == nat
+            chk.add_case("programs-methodvalue", job["id"] + v + srcs, nontrivial=True,
+                         kindkey="program-methodvalue:%s" % ("same" if same else "differs"),
+                         sample={"tie": "programs-methodvalue", "op": job["id"], "impl": "\n".join(js[0][:5]), "model": "(native Go) " + "\n".join(nat[0][:5])})
+            chk.evaluations += len(nat[0])
+            for l in nat[0]:
+                chk.count("methodvalue-line:" + (l.split(" ")[1] if " " in l else "?") + ":" + l.split(" ")[0].split(":")[-1])
+            if same:
+                continue
+            sig = None
+            # round 7: the `fwdptr` and `ptrcache` programs are plain regression cases (repaired in 80acc7c / 50401ff): no signature
+            if js[1] == nat[1] and len(js[0]) == len(nat[0]):
+                diff = [(a, b) for a, b in zip(js[0], nat[0]) if a != b]
+                # round 6: the `ptrbasic` lines (non-struct value receiver through a pointer) were repaired (28d396a): no signature
+                desc = "; ".join("js[%s] go[%s]" % d for d in diff[:6])
+            else:
+                desc = "ending js=%s native=%s lines js=%d native=%d" % (js[1], nat[1], len(js[0]), len(nat[0]))
+            chk.add_mismatch("programs-methodvalue", json.dumps({"id": job["id"], "variant": v, "source": srcs}), impl=desc,
+                             spec="native Go output", signature=sig)
+        # structure tie: the receiver makeReceiver emitted for every bind function vs the Lean model of makeReceiver
+        code = r["runs"]["plain"].get("js", "")
+        for st in ss:
+            m = re.search(r'\b%s = function[^\n]*\n(?:[^\n]*\n){0,3}?\s*return \$methodVal\((.*), "%s"\);' % (re.escape(st["fn"]), st["method"]), code)
+            sops.append("recv shape %d %d %s" % (1 if st["isPointer"] else 0, 1 if st["pe"] else 0, st["kind"]))
+            sinfo.append("%s %s" % (job["id"], st["fn"]))
+            if not m:
+                simpl.append("receiver-not-found")
+                continue
+            arg = m.group(1)
+            wrap = arg.startswith("new ")
+            inner = re.sub(r'^new [\w$.]+\(', '', arg) if wrap else arg
+            simpl.append("clone=%d wrap=%d" % (1 if inner.startswith("$clone(") else 0, 1 if wrap else 0))
+    smodel = C.run_driver("C09", sops)
+    for o, info, a, b in zip(sops, sinfo, simpl, smodel):
+        chk.add_case("makeReceiver-shape", o + info, kindkey="receiver-shape:" + b.replace(" ", ","), nontrivial=False)
+        if a != b:
+            chk.add_tie_break("makeReceiver-shape", "%s (%s)" % (o, info), a, b)
+    chk.extra["methodvalue_programs_run"] = len(jobs)
+
+
 def gen_all_families(rng, tier):
     q = tier != "thorough"
     fams = []
@@ -1360,6 +1612,7 @@ def run(tier, seed):
     check_emission(chk)
     run_programs(chk, tier)
     run_mp_programs(chk, tier)
+    run_mv_programs(chk, tier)
     return chk.finish()
 
 
